@@ -60,7 +60,20 @@ func setDurationField(field reflect.Value, fieldType reflect.Type, isPtr bool, v
 }
 
 // deserializeParams reads row 0 from a record batch into a Go struct.
-func deserializeParams(batch arrow.RecordBatch, target reflect.Type) (reflect.Value, error) {
+//
+// The batch is client-supplied. Binding goes through reflection and typed
+// Arrow accessors, both of which panic rather than return when a column's
+// shape is not what the Go field expects (a nested IPC payload is not covered
+// by the outer schema check). A panic here would escape dispatch — killing a
+// pipe worker, aborting an HTTP exchange — so it is converted into the same
+// error every other malformed parameter batch produces.
+func deserializeParams(batch arrow.RecordBatch, target reflect.Type) (result reflect.Value, err error) {
+	defer func() {
+		if rv := recover(); rv != nil {
+			result = reflect.Value{}
+			err = fmt.Errorf("malformed parameter batch: %v", rv)
+		}
+	}()
 	if target.Kind() == reflect.Ptr {
 		target = target.Elem()
 	}
@@ -107,7 +120,14 @@ func deserializeParams(batch arrow.RecordBatch, target reflect.Type) (reflect.Va
 		)
 	}
 
-	result := reflect.New(target).Elem()
+	// Pointer batches (external location / shared memory) are zero-row by
+	// construction and are exempt from ReadRequest's row check; one that was
+	// never resolved must not reach the row-0 reads below.
+	if batch.NumRows() < 1 && len(desc.Fields) > 0 {
+		return reflect.Value{}, fmt.Errorf("parameter batch has %d rows, expected 1", batch.NumRows())
+	}
+
+	result = reflect.New(target).Elem()
 
 	for ord, fd := range desc.Fields {
 		info := fd.Info
